@@ -279,4 +279,14 @@ TxSender(S, tx) ==
   ELSE IF tx.vc = NoChain THEN RecoverPlain(HashFrontier(tx), tx.sig)
        ELSE IF tx.vc # S.chain THEN NoAddr
        ELSE RecoverPlain(HashChainID(tx, S.chain), tx.sig)
+
+(* Where C11 demands REJECTION (an error), not merely "another sender": a transaction whose chain marker is not  *)
+(* the verifier's, and the malleable / malformed signature values that ValidateSignatureValues refuses whatever  *)
+(* the recovery id is.  (The other dead forms - flipped recovery id, random bytes, odd V - may also recover an    *)
+(* address nobody holds.)  TxSender and this verdict are FUNCTIONS of (S, tx): presenting the same transaction    *)
+(* again (the sender cache of types.Sender) must give the same answer.                                            *)
+TxRejectForms == {"highs", "r0", "s0", "rN", "sN", "zero"}
+TxMustFail(S, tx) == \/ tx.sig.f \in TxRejectForms
+                     \/ S.kind # "chainid" /\ tx.vc # NoChain
+                     \/ S.kind = "chainid" /\ tx.vc # NoChain /\ tx.vc # S.chain
 ===============================================================================
